@@ -68,6 +68,14 @@ def corpus():
              request=probes(1) * 4 + probes(1, base=7) * 2 + [W.query(OWN, MAPPER, 9)]),
         # jumbo frames: more observations pending than a 1500-byte QueryResp carries
         dict(name="probes-100-query-jumbo", wifi=0, mtu=9000, setup=[disc] + probes(100), request=[W.query(OWN, MAPPER, 9), W.query(OWN, MAPPER, 10)]),
+        # the MTU grows before the faulted request; more requests arrive after the fault has cleared and before any Reset - a
+        # buffer kept from one request to the next must survive a failed re-allocation
+        dict(name="query-after-mtu-grows", wifi=0, mtu=1500, request_mtu=9000, setup=[disc] + probes(3) + [W.query(OWN, MAPPER, 8)], pre_ops=["MTU 0 9000 11"],
+             request=probes(2, base=20) + [W.query(OWN, MAPPER, 9)], post=[W.query(OWN, MAPPER, 10), W.qlt(OWN, MAPPER, 11, 0x0E, 0)]),
+        dict(name="query-after-mtu-grows-and-shrinks", wifi=0, mtu=1500, request_mtu=9000, setup=[disc] + probes(3) + [W.query(OWN, MAPPER, 8)], pre_ops=["MTU 0 9000 11"],
+             request=[W.query(OWN, MAPPER, 9)], post_ops=["MTU 0 1500 11"], post=probes(1, base=30) + [W.query(OWN, MAPPER, 10), W.qlt(OWN, MAPPER, 11, 0x0E, 0)]),
+        dict(name="qlt-icon-mtu-grows-mid-transfer", wifi=0, mtu=576, request_mtu=1500, setup=[disc, W.qlt(OWN, MAPPER, 3, 0x0E, 0)], pre_ops=["MTU 0 1500 11"],
+             request=[W.qlt(OWN, MAPPER, 4, 0x0E, 542)], post_ops=["MTU 0 576 11"], post=[W.qlt(OWN, MAPPER, 5, 0x0E, 542), W.qlt(OWN, MAPPER, 6, 0x0E, 0)]),
         dict(name="qlt-offset-past-end", wifi=0, mtu=1500, setup=[disc],
              request=[W.qlt(OWN, MAPPER, 3, 0x0E, 0x7FFF), W.qlt(OWN, MAPPER, 4, 0x11, 0x7FFF), W.qlt(OWN, MAPPER, 5, 0x13, 65)]),
     ]
@@ -80,7 +88,7 @@ CONT = [W.discover(MAPPER, 5, 6, [], tos=0), W.probe(OWN, S1, OWN, S1), W.query(
 def build_scn(sid, c, fault_lines, getter_fail=None, failrc=-1):
     cfg = cfg_for(c["wifi"], c["mtu"])
     s = H.Scenario(sid, meta=dict(base=c["name"], nreq=len(c["request"]), nsetup=len(c["setup"]), flow=bool(c.get("flow")),
-                                  getter_fail=getter_fail, mtu=c["mtu"], request_frames=list(c["request"])))
+                                  getter_fail=getter_fail, mtu=c.get("request_mtu", c["mtu"]), request_frames=list(c["request"])))
     kw = H.iface_kw(cfg)
     s.iface(0, **kw)
     s.iface(1, **kw)
@@ -90,6 +98,8 @@ def build_scn(sid, c, fault_lines, getter_fail=None, failrc=-1):
         s.add("AI 0")
     for fr in c["setup"]:
         s.frame(0, fr)
+    for ln in c.get("pre_ops", []):
+        s.add(ln)
     s.add("MARK request")
     for ln in fault_lines:
         s.add(ln)
@@ -103,6 +113,12 @@ def build_scn(sid, c, fault_lines, getter_fail=None, failrc=-1):
     if getter_fail is not None:
         s.add("SET 0 fail=0")
         s.add("GSET fail=0")
+    for ln in c.get("post_ops", []):
+        s.add(ln)
+    for fr in c.get("post", []):
+        s.frame(0, fr)            # the fault is over, no Reset yet: requests that had no fault of their own
+    if c.get("pre_ops") or c.get("post_ops"):
+        s.add("MTU 0 %d 11" % c["mtu"])       # back to the MTU the fresh comparison interface has
     s.add("MARK recover")
     s.frame(0, W.reset(MAPPER, tos=0))
     s.add("LEDGER")
